@@ -358,6 +358,7 @@ class Interp:
         self.called: set[str] = set()
         self.lost_patterns: list[str] = []
         self.cls_fields: dict = {}
+        self.steps = 0
         self.fold_lists = self.content.concrete
         self.globals_store: dict = {}
 
@@ -578,6 +579,9 @@ class Interp:
         return cur
 
     def stmt(self, s: ast.stmt, env: dict, fr: Frame) -> dict | None:
+        self.steps += 1
+        if self.steps > 400000:
+            raise AnalysisError("abstract interpretation of the parsing pipeline exceeds its step budget")
         try:
             return self._stmt(s, env, fr)
         except _Dead:
